@@ -293,3 +293,39 @@ def gen_codec():
     out += "def booleanValueSpace : List (List Nat) := [%s]\n\n" % ", ".join("[" + ", ".join(map(str, v)) + "]" for v in vals)
     out += "end XV.Gen.Codec\n"
     return out
+
+
+# ---- C10 (builder) ----
+# ------------------------------------------------------------------ XMLValid codes (C10: identity-constraint error codes)
+@translate.register("ValidityCodes")
+def gen_validity_codes():
+    rel = "framework/XMLValidityCodes.hpp"
+    t = strip_c_comments(src(rel))
+    m = re.search(r"class\s+XMLValid\b.*?enum\s+Codes\s*\{(.*?)\}\s*;", t, flags=re.S)
+    if not m:
+        raise TranslateError("enum XMLValid::Codes not found in %s" % rel)
+    codes = []
+    for ent in m.group(1).split(","):
+        ent = ent.strip()
+        if not ent:
+            continue
+        mm = re.fullmatch(r"(\w+)\s*=\s*(\w+)", ent)
+        if not mm:
+            raise TranslateError("%s: enumerator without explicit value: %r" % (rel, ent))
+        codes.append((mm.group(1), c_int(mm.group(2))))
+    names = dict(codes)
+    need = ["E_LowBounds", "E_HighBounds", "W_LowBounds", "W_HighBounds", "F_LowBounds", "F_HighBounds",
+            "IC_FieldMultipleMatch", "IC_UnknownField", "IC_AbsentKeyValue", "IC_KeyNotEnoughValues", "IC_KeyMatchesNillable",
+            "IC_DuplicateUnique", "IC_DuplicateKey", "IC_KeyRefOutOfScope", "IC_KeyNotFound"]
+    for n in need:
+        if n not in names:
+            raise TranslateError("%s: XMLValid::%s not found" % (rel, n))
+    out = HEADER + "namespace XV.Gen.ValidityCodes\n\n"
+    for n in need:
+        out += "def %s : Nat := %d\n" % (n, names[n])
+    out += "\n/-- every enumerator of XMLValid::Codes, in declaration order -/\n"
+    out += "def codes : List (String × Nat) := [\n" + ",\n".join('  ("%s", %d)' % c for c in codes) + "]\n"
+    out += "\n/-- the identity-constraint codes -/\ndef icCodes : List (String × Nat) := [\n" + \
+           ",\n".join('  ("%s", %d)' % c for c in codes if c[0].startswith("IC_")) + "]\n"
+    out += "\nend XV.Gen.ValidityCodes\n"
+    return out
